@@ -28,7 +28,7 @@ Keys(s, w) ==
     [] o.k = "cv_wait" -> {<<"v", o.o>>, <<"m", o.v>>}
     [] o.k \in {"notify_one", "notify_all"} -> {<<"v", o.o>>}
     [] o.k \in {"read", "write", "try_read", "try_write"} -> {<<"r", o.o>>}
-    [] o.k \in {"unlock", "unlock_if", "ginc", "gget"} ->
+    [] o.k \in {"unlock", "unlock_if", "punlock", "ginc", "gget"} ->
          LET g == s.gd[w+1][o.w+1] IN IF g.k = "m" THEN {<<"m", g.o>>} ELSE IF g.k \in {"r", "w"} THEN {<<"r", g.o>>} ELSE {}
     [] o.k \in {"acquire", "try_acquire", "release", "close", "avail", "is_closed"} -> {<<"s", o.o>>}
     [] o.k \in {"load", "store", "swap", "fadd", "fsub", "fmax", "fmin", "cas"} -> {<<"a", o.o>>}
@@ -90,7 +90,7 @@ Op(e) ==
        /\ ("sl" \in DOMAIN e => e.sl = s1.slen)
        /\ LET res == Complete(s1, t)
               o == NextOp(s1, t)
-              guard == IF o.k \in {"unlock", "unlock_if", "ginc", "gget"} THEN s1.gd[t+1][o.w+1] ELSE NoGuard
+              guard == IF o.k \in {"unlock", "unlock_if", "punlock", "ginc", "gget"} THEN s1.gd[t+1][o.w+1] ELSE NoGuard
               oix == IF o.k \in OnceOps \cup LazyOps \cup {"is_completed", "sonce_done"} THEN OIdx(s1, t) ELSE 0
               tgt == IF o.k \in {"join", "await_join", "try_join"} /\ HasChild(s1, o.v) THEN ChildId(s1, o.v) ELSE -1
           IN /\ e.r = res.r
